@@ -56,6 +56,19 @@ def noisy(n):
     return n
 
 
+def log_then(n, how='return'):
+    """logs `n` short records (a few hundred bytes in total) and then returns / raises at once"""
+    lg = logging.getLogger(SLOW_LOGGER)
+    for i in range(n):
+        lg.warning('record %d', i)
+    if how == 'raise':
+        raise ValueError('boom after logging')
+    return n
+
+
+SLOW_LOGGER = 'nlv.c17.slow'
+
+
 def initializer():
     pass
 
